@@ -183,7 +183,7 @@ func runC14(e *Env) {
 				// DelayEach sleeps on the delivering goroutine, possibly while an upstream operator holds
 				// its own lock around the delivery (Delay): the teardown then waits for that sleep to end.
 				// A bounded wait on time, not on upstream.
-				e.SettleFor(4 * Unit)
+				e.SettleFor(delayEachAllowance(sc, st))
 			}
 		}
 		if !unsubRet {
@@ -222,8 +222,10 @@ func runC14(e *Env) {
 	for _, st := range sc.Stages {
 		if st.Op == "DelayEach" {
 			// DelayEach sleeps on the caller's goroutine before forwarding: a value already handed to it
-			// may keep Subscribe busy for one more delay; that is a bounded wait on time, not on upstream
-			e.SettleFor(4 * Unit)
+			// may keep Subscribe busy for one more delay - and a synchronous source that keeps emitting its
+			// remaining values into the closed pipeline pays that delay once per value; that is a bounded
+			// wait on time, not on upstream
+			e.SettleFor(delayEachAllowance(sc, st))
 		}
 	}
 	e.Probe("terminated")
@@ -345,4 +347,20 @@ func runC14Ctx(e *Env) {
 			e.Violate("C14", "goroutine-leak", fmt.Sprintf("library goroutine %s still %s after context cancellation", a.Site, a.State()))
 		}
 	}
+}
+
+// delayEachAllowance bounds the time a DelayEach stage may keep a delivering goroutine asleep after the
+// downstream side has terminated: one delay per value a synchronous source still pushes, plus the one in flight.
+func delayEachAllowance(sc *Scn, st StageSpec) time.Duration {
+	d := 1
+	for _, p := range st.P {
+		if p > d {
+			d = p
+		}
+	}
+	n := 2
+	for _, sp := range sc.Sources {
+		n += len(sp.Script)
+	}
+	return time.Duration(n*d) * Unit
 }
